@@ -23,6 +23,36 @@ static int pm_cb(struct dl_phdr_info *i, size_t sz, void *d) {
 }
 static uint64_t pm_hash(void) { pm_h = XV_FNV0; pm_nb = 0; pm_nseg = 0; dl_iterate_phdr(pm_cb, NULL); return pm_h; }
 
+/* request 2001: an episode on a caller-owned crystal array (explicitly allowed to be modified; the process and the
+ * built-in tables are not).  i[0] selects the variant; the observable result goes into the response like any query. */
+static void pm_write(const char *path, const char *txt) { FILE *f = fopen(path, "w"); if (f) { fputs(txt, f); fclose(f); } }
+static void pm_user_array(const xv_req *r, xv_resp *o, xrl_error **e, const char *base) {
+  static int files; static char good[700], bad[700], dup[700];
+  Crystal_Array *a; Crystal_Struct *c, *g; int rv = 0, n = -1; char **l;
+  if (!files) { files = 1;
+    snprintf(good, sizeof good, "%s.good.dat", base); snprintf(bad, sizeof bad, "%s.bad.dat", base); snprintf(dup, sizeof dup, "%s.dup.dat", base);
+    pm_write(good, "#F xv\n#S 14 XvA\n#UCELL 5.5 6.25 7.125 80.5 95.25 101.75\n#N 5\n#L Z F X Y Z\n14 1.0 0 0 0\n8 0.5 0.25 0.5 0.75\n#S 6 XvB\n#UCELL 3.5 3.5 3.5 90 90 90\n#L x\n6 1 0 0 0\n#EOF\n");
+    pm_write(bad, "#F xv\n#S 14 XvA\n#UCELL 5.5 6.25 7.125 80.5 95.25 101.75\n#N 5\n#L Z F X Y Z\n14 1.0 0 0 0\n#S 6 XvB\n#USYSTEM no cell line\n#L x\n6 1 0 0 0\n#EOF\n");
+    pm_write(dup, "#F xv\n#S 14 Aaa\n#UCELL 5 5 5 90 90 90\n#L x\n14 1 0 0 0\n#S 14 Si\n#UCELL 4 4 4 90 90 90\n#L x\n14 1 0 0 0\n#EOF\n"); }
+  a = Crystal_ArrayInit(r->i[1] & 3, NULL); if (!a) { o->status = 16; return; }
+  c = Crystal_GetCrystal("Si", NULL, NULL); if (!c) { Crystal_ArrayFree(a); o->status = 16; return; }
+  c->a = 6.5; c->b = 7.5; c->c = 8.5; c->alpha = 85; c->beta = 95; c->gamma = 100; c->volume = -1;    /* a user crystal that shares a built-in name */
+  rv = Crystal_AddCrystal(c, a, NULL); Crystal_Free(c);
+  switch (r->i[0]) {
+  case 0: break;
+  case 1: rv = rv * 10 + Crystal_ReadFile(good, a, e); break;
+  case 2: rv = rv * 10 + Crystal_ReadFile(bad, a, e); break;
+  case 3: rv = rv * 10 + Crystal_ReadFile("/nonexistent/xv.dat", a, e); break;
+  default: rv = rv * 10 + Crystal_ReadFile(dup, a, e); break;
+  }
+  g = Crystal_GetCrystal("Si", a, NULL);
+  if (g) { o->v[0] = Crystal_dSpacing(g, 1, 1, 1, NULL); o->v[1] = g->volume; Crystal_Free(g); }
+  g = Crystal_GetCrystal("XvA", a, NULL); if (g) { o->v[2] = Crystal_dSpacing(g, 1, -1, 2, NULL); Crystal_Free(g); }
+  l = Crystal_GetCrystalsList(a, &n, NULL); if (l) { int k; for (k = 0; l[k]; k++) xrlFree(l[k]); xrlFree(l); }
+  o->aux = rv * 100 + n;
+  Crystal_ArrayFree(a);
+}
+
 #define KEEP 4000
 typedef struct { xrl_error *e; int code; char *msg; char *msgptr; } pm_kept;
 
@@ -53,6 +83,7 @@ int main(int argc, char **argv) {
     o->msg = -1;
     if (r->fn >= 0 && r->fn < XV_NFN) o->v[0] = xv_call(r->fn, r->i, r->d, xe_s(r->s), &e);
     else if (r->fn >= 1000 && r->fn < XS_END) xe_special(r, o, &e);
+    else if (r->fn == 2001) pm_user_array(r, o, &e, argv[6]);
     else if (r->fn == 2000) { Crystal_Struct *c = Crystal_GetCrystal("Si", NULL, NULL); if (c) { free(c->name); c->name = strdup(xe_s(r->s) ? xe_s(r->s) : "XvAdded"); o->aux = Crystal_AddCrystal(c, NULL, &e); added += o->aux; Crystal_Free(c); } }
     else o->status = 16;
     if (e) { o->status |= 1; o->code = (int)e->code; o->msg = xe_msgid(e->message);
@@ -74,5 +105,6 @@ int main(int argc, char **argv) {
           (unsigned long long)h0, (unsigned long long)h1, pm_nb, pm_nseg, loc0, loc1, !strcmp(cwd0, cwd1), (long)st1.st_size, (long)st2.st_size, nkept, changed, added, n);
   fclose(f);
   unlink(p1); unlink(p2);
+  { char t[700]; snprintf(t, sizeof t, "%s.good.dat", argv[6]); unlink(t); snprintf(t, sizeof t, "%s.bad.dat", argv[6]); unlink(t); snprintf(t, sizeof t, "%s.dup.dat", argv[6]); unlink(t); }
   return 0;
 }
